@@ -124,8 +124,8 @@ func checkC07(c *Ctx) {
 	}
 	c.Rule("R7.7", "logging through an encoder never modifies it: EncodeEntry/Clone/writeContext only read the shared receiver", 3)
 	c9EncoderPurity(c, "R7.7")
-	c.Rule("R7.8", "namespaces nest per object: AppendObject saves, zeroes, closes and restores the open-namespace counter, so a nested object never closes the logger's own namespace", 4)
-	c1Namespace(c, "R7.8")
+	c.Rule("R7.8", "namespaces nest per object: the open-namespace counter accounts for exactly the braces still open, so a nested object never closes (or forgets) the logger's own namespace", 3)
+	c1Namespaces(c, "R7.8")
 	c7Clone(c)
 	c.Rule("R7.9", "slog handlers: context added through WithAttrs lands under exactly the groups open at that point (pending-group protocol), so a derived handler's entries nest as its own derivation path says", 2)
 	c18EmitProtocol(c, "R7.9")
